@@ -321,3 +321,5 @@ pub fn generate(out: &mut Out, tier: &str, seed: u64) {
 }
 
 pub const RULE: &str = "exhaustive: all pairs of well-formed ranges over positions 0..7 on two 7-codepoint texts (with / without whitespace, about half of the ranges bound to handles), all sets of size <=2 over positions 0..3 (quick) / 0..5 (thorough) sorted and unsorted, each against every operator x all x negate x limit in {None,0,1,2,5} x allow_whitespace; plus seeded random sets of size 1..4 on a 29-codepoint text. One evaluation = one (operands, operator) test through ResultTextSelection::test/test_set or ResultTextSelectionSet::test/test_set. A case line is non-trivial when an operand is non-empty (pairs) or a set has more than one member; distinct = distinct input lines.";
+
+pub const EXHAUSTIVE: bool = true;
